@@ -382,6 +382,43 @@ def float_refinements(h: Harness):
                 prev, geno = geno, nxt
 
 
+def float_edge_bounds(h: Harness):
+    """FloatRange whose bounds are written as int literals beyond 2**53 (no exact float form: the nearest float lies OUTSIDE the range),
+    as equal bounds, or one ulp apart, generated from the genotype-backed sources at the genes that select the ends of the range: the value
+    is a float inside the range, and the handler's own validate() accepts it"""
+    import sys
+    from geneticengine.grammar.metahandlers.floats import FloatRange
+    from geneticengine.representations.grammatical_evolution import dynamic_structured_ge as dsge
+    from geneticengine.representations.grammatical_evolution.ge import ListWrapper as GEListWrapper
+    from geneticengine.representations.grammatical_evolution.structured_ge import StructuredListWrapper
+    from geneticengine.representations.stackgggp import ListWrapper as StackListWrapper
+    b = host()
+    g = b.grammar
+    bounds = [(-(2**53) - 3, 2**53 + 3), (0, sys.maxsize), (0, 2**60 + 129), (-(2**53) - 1, 5), (-sys.maxsize, sys.maxsize), (-(2**60) - 129, -(2**60)),
+              (0.9, 0.9), (0.7, 0.7000000000000001), (-1.5, 2.5), (3, 3)]
+    genes = (0, 1, 2, 512, 1023, 1024, 1025, 2048, sys.maxsize, sys.maxsize - 1, sys.maxsize // 2, 2 * sys.maxsize)
+    for lo, hi in bounds:
+        mh = FloatRange(lo, hi)
+        for gene in genes:
+            sources = [("ge.ListWrapper", lambda: GEListWrapper([gene, gene, gene])), ("stackgggp.ListWrapper", lambda: StackListWrapper([gene, gene, gene])),
+                       ("StructuredListWrapper", lambda: StructuredListWrapper({"$infrastructure": [gene, gene, gene], "float": [gene, gene]})),
+                       ("GenotypeBackedSource", lambda: dsge.GenotypeBackedSource(dsge.DynamicSGEDecider(dsge.Genotype(ScriptedSource([]), {float: [gene]}), g, max_depth=5)))]
+            for name, mk in sources:
+                try:
+                    v = mh.generate(mk(), g, float, None, {})
+                except Exception as e:  # noqa: BLE001
+                    h.count(f"float-edge-bounds:{name}:raises:{type(e).__name__}")
+                    continue
+                h.count(f"float-edge-bounds:{name}")
+                h.seen(f"float-edge:{name}:{lo}:{hi}:{gene}", nontrivial=True)
+                if not (type(v) is float and lo <= v <= hi):
+                    h.fail("FloatRange.generate", "generated-value-violates-refinement",
+                           f"FloatRange({lo}, {hi}).generate from a {name} whose genes are {gene} returned {v!r}, which is not a float inside the range", [name, lo, hi, gene])
+                elif not mh.validate(v):
+                    h.fail("FloatRange.validate", "validate-rejects-generated-value", f"FloatRange({lo}, {hi}).validate rejects {v!r}, a value its own generate() produced ({name})",
+                           [name, lo, hi, gene])
+
+
 def foreign_options(h: Harness):
     """VarRange whose options are not strings although the field is declared `str` (class labels from a dataset, as the geml
     rule-set classifier passes them): the generated value is ONE OF THE OPTIONS, as given"""
@@ -604,6 +641,7 @@ def run(h: Harness):
     weighted_strings(h)
     handed_down_values(h)
     float_refinements(h)
+    float_edge_bounds(h)
     foreign_options(h)
     sibling_isolation(h)
     # a refinement re-declared on an already used class (the documented `Cls.__init__.__annotations__[f] = ...` idiom):
